@@ -29,6 +29,15 @@ pub(crate) fn needs_more_input(
     needs_more_input_locked(&shell, input)
 }
 
+/// Verification hook: exposes the completeness decision for an already-acquired shell.
+#[cfg(brush_verif)]
+pub fn verif_needs_more_input(
+    shell: &Shell<impl brush_core::ShellExtensions>,
+    input: &str,
+) -> bool {
+    needs_more_input_locked(shell, input)
+}
+
 /// Returns whether more input is needed, given an already-acquired shell.
 #[allow(dead_code)]
 fn needs_more_input_locked(shell: &Shell<impl brush_core::ShellExtensions>, input: &str) -> bool {
